@@ -206,10 +206,29 @@ class Tap:
         self.inner.on_packet(packet)
 
 
+STALE_HANDLE = 0x0EEE
+
+
+def stale_first(packet):
+    """Number Of Completed Packets event rewritten the way a controller that batches its reports may send it: an entry
+    for a handle the host has no ACL link for (a SCO link, or a link that has just gone) listed BEFORE the real ones.
+    Every entry of the event counts, whatever comes before it."""
+    b = bytes(packet)
+    if len(b) >= 4 and b[0] == 0x04 and b[1] == 0x13:
+        n = b[3]
+        handles, counts = b[4 : 4 + 2 * n], b[4 + 2 * n : 4 + 4 * n]
+        body = bytes([n + 1]) + struct.pack('<H', STALE_HANDLE) + handles + struct.pack('<H', 1) + counts
+        return bytes([0x04, 0x13, len(body)]) + body
+    return packet
+
+
 class E2E:
     def __init__(self, transport, geom, seed=0):
         from ..harness.devices import World
 
+        self.dialect = None
+        if '+' in transport:
+            transport, self.dialect = transport.split('+')
         self.transport = transport
         self.geom = geom
         L0, N0, L1, N1 = geom
@@ -233,6 +252,15 @@ class E2E:
             w.power_on()
             cc, pc = w.connect_classic() if classic else w.connect_le()
             self.handles = (cc.handle, pc.handle)
+            if self.dialect == 'stale':
+                import types
+
+                for h in w.hosts:
+                    # (a bound method of the host called on_packet, so that the loop still recognises the delivery)
+                    def on_packet(host, packet, _orig=h.on_packet):
+                        return _orig(stale_first(packet))
+
+                    h.on_packet = types.MethodType(on_packet, h)
             self.events = [[], []]
             self.l2cap = [[], []]
             for i, (h, d) in enumerate(zip(w.hosts, w.devices)):
@@ -295,6 +323,8 @@ class E2E:
                 rule, idx, msg = fr
                 idx = min(idx, len(frames) - 1)
                 sig = {'rule': rule, 'transport': self.transport, 'frame_vs_L': frame_class(len(frames[idx]), L)}
+                if self.dialect:
+                    sig['completion_reports'] = self.dialect
                 out.append(('e2e_fragment', sig, f'{self.transport} geometry {self.geom} sender {s} payload lengths {seq[s]}: {msg}'))
             # 2. delivery at the receiver
             exp = [(self.handles[r], cid, pl) for cid, pl in sent[s]]
@@ -325,6 +355,9 @@ class E2E:
                     )
                 if excs:
                     desc += f'; loop exception: {excs[0][1]} in {excs[0][0]}'
+                if self.dialect:
+                    sig['completion_reports'] = self.dialect
+                    desc += ' [Number Of Completed Packets events list an entry for a handle without ACL link first]'
                 out.append(('e2e_delivery', sig, f'{self.transport} geometry (L0,N0,L1,N1)={self.geom} direction {s}->{r} payload lengths {seq[s]}: {desc}'))
                 break
         return out
@@ -459,6 +492,10 @@ def e2e_items(quick):
             for N in Ns:
                 geoms += [(L, N, DEFAULT_L, DEFAULT_N), (DEFAULT_L, DEFAULT_N, L, N), (L, N, L, N)]
     small = [(t, g) for t in ('le', 'classic') for g in geoms]
+    # controllers that batch their completion reports: a foreign handle listed before the link's own entry
+    for t in ('le+stale', 'classic+stale'):
+        for L, N in ((5, 1), (27, 2), (27, 64)) if quick else side:
+            small += [(t, (L, N, DEFAULT_L, DEFAULT_N)), (t, (DEFAULT_L, DEFAULT_N, L, N)), (t, (L, N, L, N))]
     shared_L = (5, 27, 251) if quick else Ls
     for L in shared_L:
         for N in (1, 64) if quick else Ns:
@@ -1244,7 +1281,7 @@ def run(ctx: core.Context) -> int:
         ctx,
         LEVEL,
         rule=(
-            'e2e: (transport in le/classic/le-sharing-BR/EDR-buffers) x (L,N) geometry per side ('
+            'e2e: (transport in le/classic/le-sharing-BR/EDR-buffers; also with Number Of Completed Packets events rewritten to list an entry for a handle without ACL link before the real one) x (L,N) geometry per side ('
             + ('one side varied at a time + diagonal' if quick else 'full product')
             + ') x PDU sequences of length 1-3 over payload lengths {0,1,kL-4+{-1,0,1}} in direction 0->1, 1->0 and duplex, plus large PDUs '
             'up to 65535 for each sender L; a case = one sequence, executed on two real stacks and checked at three observation points. '
